@@ -29,6 +29,16 @@ IterPrefix == (mode = "iter" /\ x.i <= x.n) =>
                  \A j \in 1..Len(outs) : outs[j] = (IF j <= x.n + 1 THEN Expected(x.n, x.i)[j] ELSE None)
 IterOnePlaceholder == (mode = "iter" /\ x.i <= x.n /\ Len(outs) >= x.n + 1) =>
                          Cardinality({j \in 1..Len(outs) : outs[j] = PH}) = 1
+\* ---- the integer abstraction of M5 that Apalache proves inductive for unbounded n (spec/apalache/IterInd.tla):
+\* on every explored state the concrete iterator maps to an abstract state that satisfies the inductive invariant
+AbstractionOK == (mode = "iter" /\ x.i <= x.n) =>
+  LET now == it.now  taken == x.n - Len(it.rest)
+      phOut == \E j \in 1..Len(outs) : outs[j] = PH
+      nones == Cardinality({j \in 1..Len(outs) : outs[j] = None})
+  IN /\ now = Len(outs)
+     /\ phOut = (now > x.i)
+     /\ (now <= x.n + 1 => (nones = 0 /\ taken = now - (IF now > x.i THEN 1 ELSE 0)))
+     /\ (now > x.n + 1 => (taken = x.n /\ nones = now - (x.n + 1)))
 \* ---- accessor laws on the model's values (ordered view = any sequence order of the sets)
 RECURSIVE Ord(_)
 Ord(v) == CASE IsAtom(v) -> v
